@@ -290,7 +290,12 @@ func c03Chains(r *Run) {
 				if !r.Thorough() && tail != "<b>[post]</b>" && len(ch.kinds) == 3 {
 					continue
 				}
-				r.Add(c03LoopedChainCase(ch, mask, tail))
+				for _, coll := range []string{"two", "one", "none", "missing", "nilv"} {
+					if !r.Thorough() && len(ch.kinds) == 3 && (coll == "one" || coll == "nilv") {
+						continue
+					}
+					r.Add(c03LoopedChainCase(ch, mask, tail, coll))
+				}
 			}
 		}
 	}
@@ -312,13 +317,21 @@ func c03Chains(r *Run) {
 // c03LoopedChainCase: the members selected by mask carry v-for="x in two" (two items): the chosen branch is that loop, every other
 // member renders nothing. The tail is what follows the chain; a `v-else` there belongs to the chain only when the chain has no v-else
 // member of its own yet, and the shapes used here make it an extra member of the chain that must not render when a branch was chosen.
-func c03LoopedChainCase(ch c03Chain, mask int, tail string) *Case {
+// the collections a looped member ranges over, with their lengths: a selected member whose loop is empty renders nothing, and it is still
+// the selected member - no later branch renders in its place
+var c03LoopColls = map[string]int{"two": 2, "one": 1, "none": 0, "missing": 0, "nilv": 0}
+
+func c03LoopedChainCase(ch c03Chain, mask int, tail string, coll string) *Case {
+	if coll == "" {
+		coll = "two"
+	}
+	count := c03LoopColls[coll]
 	var sb strings.Builder
 	sb.WriteString("<b>[pre]</b>")
 	for i, k := range ch.kinds {
 		loop := ""
 		if mask&(1<<i) != 0 {
-			loop = ` v-for="x in two"`
+			loop = ` v-for="x in ` + coll + `"`
 		}
 		switch k {
 		case "if":
@@ -331,12 +344,12 @@ func c03LoopedChainCase(ch c03Chain, mask int, tail string) *Case {
 	}
 	sb.WriteString(tail)
 	tpl := sb.String()
-	d := map[string]any{"two": []any{1, 2}}
+	d := map[string]any{"two": []any{1, 2}, "one": []string{"a"}, "none": []any{}, "nilv": nil}
 	ch.data("", d)
 	res := renderPage(map[string]string{"p.vuego": tpl}, "p.vuego", d)
 	pendingPages = append(pendingPages, pageCase("chain", map[string]string{"p.vuego": tpl}, nil, "p.vuego", d, "placement:looped-member"))
-	c := &Case{Name: fmt.Sprintf("looped chain %v %v mask %d tail %q", ch.kinds, ch.truth, mask, tail),
-		Input: map[string]any{"stream": "looped", "kinds": ch.kinds, "truth": ch.truth, "mask": mask, "tail": tail, "tpl": tpl},
+	c := &Case{Name: fmt.Sprintf("looped chain %v %v mask %d tail %q over %s", ch.kinds, ch.truth, mask, tail, coll),
+		Input: map[string]any{"stream": "looped", "kinds": ch.kinds, "truth": ch.truth, "mask": mask, "tail": tail, "tpl": tpl, "coll": coll},
 		Impl:  res.canon(), Oracle: &Verdict{OK: true}, Tags: []string{"stream:chain", "placement:looped-member", fmt.Sprintf("len:%d", len(ch.kinds))}}
 	c.Key = c.Name
 	if res.Err != "" || res.Panic != "" || res.Timeout {
@@ -358,8 +371,11 @@ func c03LoopedChainCase(ch c03Chain, mask int, tail string) *Case {
 		if idx >= lastIf {
 			chosen = true
 		}
-		want = append(want, m)
 		if mask&(1<<idx) != 0 {
+			for n := 0; n < count; n++ {
+				want = append(want, m)
+			}
+		} else {
 			want = append(want, m)
 		}
 	}
@@ -467,7 +483,8 @@ func c03ReplayChain(r *Run, replay *Case) {
 		var truth []bool
 		remarshal(replay.Input["kinds"], &kinds)
 		remarshal(replay.Input["truth"], &truth)
-		r.Add(c03LoopedChainCase(c03Chain{kinds, truth}, int(replay.Input["mask"].(float64)), replay.Input["tail"].(string)))
+		coll, _ := replay.Input["coll"].(string)
+		r.Add(c03LoopedChainCase(c03Chain{kinds, truth}, int(replay.Input["mask"].(float64)), replay.Input["tail"].(string), coll))
 	case "negated":
 		for _, e := range c03NegExprs {
 			if e.src == replay.Input["expr"] {
